@@ -149,6 +149,8 @@ def model_tokens(pre, ops, files, workers):
             lst = per_thread[tid]
             n = sum(1 for s_ in steps if s_.endswith(".t") and int(s_.split(".")[0]) in lst)
             cur[tid] = n
+            if n >= len(lst):
+                return None      # more analyses start on this thread than notifications were sent: not a program of the model
             steps.append("%d.t" % lst[cur[tid]])
             continue
         w = per_thread[tid][min(cur[tid], len(per_thread[tid]) - 1)]
